@@ -213,7 +213,13 @@ func (mb *mbox) createDir() error {
 
 // removeDir removes the mailbox, plus empty higher level directories
 func (mb *mbox) removeDir() error {
-	// remove mailbox dir, including index file
+	// Remove the index first: RemoveAll deletes the directory's files one by one in no particular
+	// order, and a crash half way through must not leave an index that lists messages whose files
+	// are already gone.  Without an index the mailbox is empty, whatever else is left behind.
+	if err := os.Remove(mb.indexPath); err != nil && !os.IsNotExist(err) {
+		return err
+	}
+	// remove mailbox dir, including any message files
 	if err := os.RemoveAll(mb.path); err != nil {
 		return err
 	}
